@@ -628,7 +628,10 @@ impl Disk {
         let (typ,fat_buf) = self.get_fat_buffer()?;
         fat::set_cluster(last.unwrap() , new_cluster as u32, typ, fat_buf);
         fat::mark_last(new_cluster, typ, fat_buf);
-        Ok(())
+        // the cluster is part of the directory from now on, whatever becomes of the entry it was added for:
+        // what it held before must not be read as directory entries
+        let empty = vec![0;self.boot_sector.block_size() as usize];
+        self.zap_block(&empty,new_cluster,0)
     }
     /// Write a changed entry back to disk using the directory buffer.
     /// This zaps only the cluster/sector in which the entry resides, the FAT buffer is assumed already correct.
